@@ -21,8 +21,12 @@ EXTENDS Naturals, Sequences, TLC, Bitwise
 CONSTANTS NCh,        \* number of data channels (3 in the machine, 2 in model checking)
           Data,       \* values a data register is written with (0..65535 in the machine)
           SemW,       \* semaphore width in bits (16 in the machine, 2 in model checking)
-          FixedMask   \* TRUE: MaskSemaphore recomputes the signal flag and interrupts on a rise
+          FixedMask,  \* TRUE: MaskSemaphore recomputes the signal flag and interrupts on a rise
                       \*       (the repaired code); FALSE: as pinned (it only stores the mask)
+          FixedReentry \* TRUE: SetSemaphore / MaskSemaphore store the signal flag BEFORE they call the handler
+                      \*       (the repaired code: the handler sees the new flag); FALSE: as pinned, the flag is
+                      \*       stored after the handler returned, from a value computed before (ApbpReent.tla
+                      \*       has the call as separate Begin / nested calls / End steps)
 
 Chan    == 0..NCh-1
 SEMH    == NCh                      \* handler id of the semaphore handler
@@ -57,12 +61,12 @@ GetDisableInterrupt(s, c)    == Ret(s, s.dis[c])
 SetDisableInterrupt(s, c, v) == Ret([s EXCEPT !.dis[c] = v], 0)
 
 \* Apbp::SetSemaphore : the handler runs whenever the new flag value is 1 (also when it already was),
-\* and it runs BEFORE semaphore_master_signal is stored; the flag is or-ed, not assigned
+\* the flag is or-ed, not assigned; pinned: the handler runs BEFORE semaphore_master_signal is stored
 SetSemaphore(s, b) ==
     LET s1 == [s EXCEPT !.sem = s.sem | b]
         ns == Flag(s1)
         s2 == [s1 EXCEPT !.sig = B01(s.sig = 1 \/ ns = 1)]
-    IN  IF ns = 1 THEN Call(s2, 0, SEMH, s1) ELSE Ret(s2, 0)
+    IN  IF ns = 1 THEN Call(s2, 0, SEMH, IF FixedReentry THEN s2 ELSE s1) ELSE Ret(s2, 0)
 \* Apbp::ClearSemaphore
 ClearSemaphore(s, b) ==
     LET s1 == [s EXCEPT !.sem = s.sem & SemNot(b)]
@@ -73,7 +77,7 @@ MaskSemaphore(s, b) ==
         ns == Flag(s1)
         s2 == [s1 EXCEPT !.sig = ns]
     IN  IF ~ FixedMask THEN Ret(s1, 0)                         \* pinned: stores the mask, nothing else
-        ELSE IF ns = 1 /\ s.sig = 0 THEN Call(s2, 0, SEMH, s1) \* repaired: interrupt on the rise
+        ELSE IF ns = 1 /\ s.sig = 0 THEN Call(s2, 0, SEMH, IF FixedReentry THEN s2 ELSE s1) \* repaired: interrupt on the rise
         ELSE Ret(s2, 0)
 GetSemaphore(s)        == Ret(s, s.sem)
 GetSemaphoreMask(s)    == Ret(s, s.msk)
